@@ -1,8 +1,75 @@
-(* C01 - Swarm membership and counts follow the announce history exactly. *)
-From Chihaya Require Import Model.Hooks Proofs.SwarmP.
+(* C01 - Swarm membership and counts follow the announce history exactly.
+   The specification (Model/Swarm.v, `spec`) is one swarm map keyed by
+   infohash x family; its clauses are the sentences of the property.  Both
+   stores refine it for every history.  Only statements here. *)
+From Chihaya Require Import Model.History Proofs.SwarmP Proofs.SpecP Proofs.MemP.
 Open Scope Z_scope.
 
-Theorem C01_put_seeder_listed : forall (k : list Z * bool) pk t (m : spec),
-  seeders (sm_get k (sm_put_seeder k pk t m).1) !! pk = Some t.
-Proof. exact put_seeder_listed. Qed.
-Print Assumptions C01_put_seeder_listed.
+(* ---- the memory store refines the specification, for every history and shard count *)
+Theorem C01_mem_refines_spec : forall n ops ih v6, (0 < n)%nat ->
+  observe (mem_if n) (run_mem n ops) ih v6 = observe spec_if (run_spec ops) ih v6.
+Proof. exact mem_refines_spec. Qed.
+Print Assumptions C01_mem_refines_spec.
+
+Theorem C01_mem_shard_count_irrelevant : forall n m ops ih v6, (0 < n)%nat -> (0 < m)%nat ->
+  observe (mem_if n) (run_mem n ops) ih v6 = observe (mem_if m) (run_mem m ops) ih v6.
+Proof. exact mem_shard_count_irrelevant. Qed.
+Print Assumptions C01_mem_shard_count_irrelevant.
+
+(* the announce response (counts, peers) is allowed against the store iff it is allowed against the specification *)
+Theorem C01_mem_response_verdict : forall n ops a c i peers, (0 < n)%nat ->
+  response_verdict (mem_if n) a (run_mem n ops) c i peers =
+  response_verdict spec_if a (run_spec ops) c i peers.
+Proof. exact mem_response_verdict. Qed.
+Print Assumptions C01_mem_response_verdict.
+
+(* ---- the clauses, on the specification *)
+Theorem C01_seeder_listed : forall a clock sp, plain_event (a_event a) -> a_left a = 0 ->
+  seeders (swarm_of (swarm_interaction spec_if a clock sp) (a_ih a) (a_v6 a)) !! a_key a = Some clock.
+Proof. exact seeder_listed. Qed.
+Print Assumptions C01_seeder_listed.
+
+Theorem C01_leecher_listed : forall a clock sp, plain_event (a_event a) -> a_left a <> 0 ->
+  leechers (swarm_of (swarm_interaction spec_if a clock sp) (a_ih a) (a_v6 a)) !! a_key a = Some clock.
+Proof. exact leecher_listed. Qed.
+Print Assumptions C01_leecher_listed.
+
+Theorem C01_completed_moves : forall a clock sp, a_event a = EvCompleted ->
+  let sw := swarm_of (swarm_interaction spec_if a clock sp) (a_ih a) (a_v6 a) in
+  seeders sw !! a_key a = Some clock /\ leechers sw !! a_key a = None.
+Proof. exact completed_moves. Qed.
+Print Assumptions C01_completed_moves.
+
+Theorem C01_stopped_removes : forall a clock sp, a_event a = EvStopped ->
+  let sw := swarm_of (swarm_interaction spec_if a clock sp) (a_ih a) (a_v6 a) in
+  seeders sw !! a_key a = None /\ leechers sw !! a_key a = None /\
+  forall pk, pk <> a_key a ->
+        seeders sw !! pk = seeders (swarm_of sp (a_ih a) (a_v6 a)) !! pk /\
+        leechers sw !! pk = leechers (swarm_of sp (a_ih a) (a_v6 a)) !! pk.
+Proof. exact stopped_removes. Qed.
+Print Assumptions C01_stopped_removes.
+
+Theorem C01_expiry_removes : forall (T : Z) sp ih v6 (pk : list Z),
+  seeders (swarm_of (sm_gc T sp) ih v6) !! pk =
+    (match seeders (swarm_of sp ih v6) !! pk with Some t => if decide (T < t) then Some t else None | None => None end) /\
+  leechers (swarm_of (sm_gc T sp) ih v6) !! pk =
+    (match leechers (swarm_of sp ih v6) !! pk with Some t => if decide (T < t) then Some t else None | None => None end).
+Proof. exact expiry_exact. Qed.
+Print Assumptions C01_expiry_removes.
+
+(* an announce changes its own swarm only *)
+Theorem C01_other_swarms_untouched : forall a clock sp ih v6,
+  (ih, v6) <> (a_ih a, a_v6 a) -> swarm_interaction spec_if a clock sp !! (ih, v6) = sp !! (ih, v6).
+Proof. exact announce_frame. Qed.
+Print Assumptions C01_other_swarms_untouched.
+
+Theorem C01_counts_reported : forall sp ih v6,
+  st_scrape spec_if ih v6 sp =
+  (wrap32 (Z.of_nat (size (seeders (swarm_of sp ih v6)))), wrap32 (Z.of_nat (size (leechers (swarm_of sp ih v6))))).
+Proof. exact counts_reported. Qed.
+Print Assumptions C01_counts_reported.
+
+(* a swarm without members is unknown, after every history *)
+Theorem C01_no_empty_swarm : forall ops, no_empty (run_spec ops).
+Proof. exact run_spec_no_empty. Qed.
+Print Assumptions C01_no_empty_swarm.
